@@ -761,3 +761,6 @@ def check(ctx):
                            f"{fi13.qual} installs `{nm_}`: the log rolls over between two records - a snapshot (or the STATV segments of one transfer) written across the roll-over is split over two files and read back from neither",
                            loc(fi13, n_), sample={"rule": "R13", "site": fi13.qual, "handler": nm_})
     ctx.floor("R13", "file handlers installed by the tools", n13, 1)
+    ctx.rule("R14", "the traffic log shows what arrived: the socket's \"Received ...\" debug line is the writer side of the raw traffic log, and the reader takes a segment from `STATV ... </DATAS>` on it - dispatch of a 400-byte datagram, interpreted with the logger observed, logs the datagram whole (a line bounded to its first 256 bytes loses every segment longer than that: the transfer reassembles from the log to other bytes than the client holds)")
+    from ..enginemodel import traffic_log_carries_whole_datagrams as _tlw19
+    _tlw19(ctx, repo, "R14")
